@@ -1,3 +1,4 @@
+import RasnModel.Driver.C04
 import RasnModel.Driver.C06
 import RasnModel.Driver.C14
 import RasnModel.Driver.C16
@@ -6,6 +7,7 @@ import RasnModel.Driver.Struct
 
 def dispatch (line : String) : String :=
   match Sexp.parseLine line with
+  | some (.atom "c04" :: args) => Driver.C04.handle args
   | some (.atom "c06" :: args) => Driver.C06.handle args
   | some (.atom "c14" :: args) => Driver.C14.handle args
   | some (.atom "c16" :: args) => Driver.C16.handle args
